@@ -22,13 +22,24 @@ RULE = ('random portfolios incl. order books with out-of-horizon orders (row-les
         'stream gap: nodes whose dispatch has gaps in time (dead zones inside the horizon for a random set of nodes: all assets, wrapped assets and orders touching them live in the remaining segments; few full-horizon markets) - nodal rows checked in both directions; '
         'stream coarse: assets on their own coarser frequency whose coarse steps hold unequal numbers of fine steps (calendar days of 23/24/25 h and weeks on zone-aware sub-daily grids across a daylight-saving switch, '
         'life times beginning part of a coarse step before the horizon or inside it, remainders) and equal-length controls; '
+        'stream param: portfolios of all asset classes (contracts, multi-commodity contracts, plants, CHPs incl. the min-load class, wrapped and scaled assets; own windows) whose per-step parameters '
+        '(extra/start/running costs, start fuel, consumption if on, fuel efficiency, conversion factor, heat share, min-load threshold and costs, capacities) come in every accepted form: '
+        'interval data covering only PART of the asset\'s window (nothing given before / after / in a hole in the middle / several holes / nothing at all; boundaries between grid points; with and without \'end\'), '
+        'complete interval data, price keys, arrays, numbers - the documented default (0 resp. 1) applies where nothing is given (capacities have none: always complete); every eighth case also split; '
         'non-trivial = problem with >= 2 assets and >= 1 nodal row; distinct by scenario hash')
 ASSUMPTIONS = []
-PARTIAL = ['the coarse-interval oracle identifies the coarse step of a variable by the first step its rows name (every variable must be mapped to exactly the fine steps of ONE coarse step of the asset, in proportion to their lengths, '
+PARTIAL = ['cost vectors for price samples (costs_only): NaN entries and length only (length not for periodic assets: finding F-17e of C17); that they equal the cost vector of the problem is C17\'s statement; '
+           'arrays as parameters are drawn for top-level assets of unsplit set-ups only (an array has one entry per step of the asset\'s window; in a split set-up no array fits all intervals); '
+           'transports take numbers only (their constructor compares the capacities as numbers)',
+           'the coarse-interval oracle identifies the coarse step of a variable by the first step its rows name (every variable must be mapped to exactly the fine steps of ONE coarse step of the asset, in proportion to their lengths, '
            'and no two variables of the same kind and node to the same one); that the cost and bounds of the variable are those of THAT coarse step is a statement about the builders (C13 / builder correspondences), not checked here',
            'assets that are both coarse and periodic, and coarse assets wrapped in a structured asset, are outside the coarse-interval oracle (their variables are merged / relabelled afterwards)']
 EXPLANATION = ('theorems about the model assemble; exact positional correspondence with the real portfolio problem; structural oracle on the real OptimProblem objects (portfolio and every captured asset problem): '
-               'sizes, index range, blocks, row-less variables, nodal rows <-> (node, step) pairs with dispatch in both directions; for assets on a coarser frequency the steps named by the rows of each variable '
+               'sizes, index range, NaN entries (c, l, u, b, A of the portfolio problem and of every asset problem), blocks, row-less variables, nodal rows <-> (node, step) pairs with dispatch in both directions; '
+               'every asset is also set up stand-alone for its cost vector for price samples (costs_only): no NaN, one entry per variable; when the portfolio set-up raises, the assets\' stand-alone problems are examined all the same; '
+               'all streams: where interval data of a parameter with a documented default leave steps of the horizon open, the same scenario with the default WRITTEN OUT as explicit intervals over the rest of time '
+               'is set up too - a set-up that raises only without the explicit default (the NaN assertion of the problem), or a problem (c, l, u, b, A, row types) that differs, means that the open steps did not get the default; '
+               'for assets on a coarser frequency the steps named by the rows of each variable '
                'are compared with the coarse steps of the Lean model of Timegrid\'s coarse branch (theorem C19.coarse_partition; model tied to the real restricted grid on every such asset)')
 
 
@@ -76,6 +87,12 @@ def scenarios(seed, tier):
     for i in range(160 if tier == 'quick' else 900):
         s = c07gen.gen_coarse_portfolio(random.Random(rnd.getrandbits(48)), quick=(tier == 'quick'))
         yield 'coarse%d' % i, s
+    # the vector parameters of all asset classes in all accepted forms: interval data covering only PART of the asset's window (the
+    # documented default applies elsewhere), complete interval data, price keys, arrays
+    for i in range(400 if tier == 'quick' else 2400):
+        s = c07gen.gen_param_portfolio(random.Random(rnd.getrandbits(48)), tmax=12 if tier == 'quick' else 20, arrays=(i % 8 != 7))
+        s['split'] = (i % 8 == 7)
+        yield 'param%d' % i, s
 
 
 def coarse_intervals(rec, drv, feats):
@@ -304,7 +321,113 @@ def structural(rec):
             bad('asset %r: mapping index beyond its %d variables' % (a.name, k), what='asset_index', asset_type=type(a).__name__)
         if (np.asarray(cap.l) > np.asarray(cap.u)).any():
             bad('asset %r: lower bound exceeds upper bound' % a.name, what='asset_bounds', asset_type=type(a).__name__)
+        for msg in nan_entries(cap):
+            bad('asset %r (%s), its own problem: %s' % (a.name, type(a).__name__, msg), what='asset_nan', asset_type=type(a).__name__)
     return viol
+
+
+def nan_entries(op):
+    """['<k> NaN entries in <vector>', ...] of a problem"""
+    out = []
+    for nm in ('c', 'l', 'u', 'b'):
+        v = getattr(op, nm, None)
+        if v is None:
+            continue
+        v = np.asarray(v, dtype=float)
+        if np.isnan(v).any():
+            out.append('%d of the %d entries of %s are NaN (first at %d)' % (int(np.isnan(v).sum()), len(v), nm, int(np.argmax(np.isnan(v)))))
+    if getattr(op, 'A', None) is not None and np.isnan(sp.coo_matrix(op.A).data).any():
+        out.append('NaN entries in A')
+    return out
+
+
+def _periodic(spec):
+    return 'periodicity' in spec.get('args', {}) or ('base' in spec and _periodic(spec['base'])) or any(_periodic(b) for b in spec.get('inner', []))
+
+
+def standalone_probe(scn, feats, problems=True, captured=None):
+    """C07 on what every asset produces STAND-ALONE (fresh objects): its problem (`problems`; else the captured ones are taken as
+    given) and its cost vector for price samples (`costs_only`): no NaN entry, one cost entry per variable"""
+    from .. import scen
+    viol = []
+    try:
+        portf, tg, prices, _ = scen.build(scn)
+    except Exception:
+        return viol
+    for a, spec in zip(portf.assets, scn['assets']):
+        at = type(a).__name__
+
+        def bad(msg, what):
+            viol.append({'oracle': 'mapping_structure', 'detail': 'asset %r (%s) stand-alone: %s' % (a.name, at, msg) + _partial_note(spec, scn),
+                         'facts': {'what': what, 'asset_type': at}})
+        op = captured.get(a.name) if captured else None
+        if problems:
+            try:
+                with impl.Quiet():
+                    op = a.setup_optim_problem(prices, tg)
+            except Exception:
+                op = None
+            for msg in (nan_entries(op) if op is not None else []):
+                bad('its own problem: ' + msg, 'asset_nan')
+        try:
+            with impl.Quiet():
+                c = a.setup_optim_problem(prices, tg, costs_only=True)
+        except Exception as e:
+            feats.append('costs-only-error:' + impl.err_class(e))
+            continue
+        c = np.asarray(c, dtype=float)
+        if np.isnan(c).any():
+            bad('%d of the %d entries of its cost vector for price samples (costs_only) are NaN (first at %d)' % (int(np.isnan(c).sum()), len(c), int(np.argmax(np.isnan(c)))), 'costs_only_nan')
+        elif op is not None and len(c) != len(op.c) and not _periodic(spec):
+            # (periodic assets: the un-merged vector is returned, finding F-17e of C17)
+            bad('its cost vector for price samples (costs_only) has %d entries, its problem %d variables' % (len(c), len(op.c)), 'costs_only_length')
+    return viol
+
+
+def _partial_note(spec, scn):
+    _, ch = c07gen.complete_defaults({'grid': scn['grid'], 'assets': [spec]})
+    return ('; interval data covering part of the horizon only: %s' % ', '.join(ch)) if ch else ''
+
+
+def default_written_out(scn, rec, feats):
+    """Where interval data of a parameter with a documented default leave steps unspecified, the default applies - so the problem has
+    no undefined entry there.  Metamorphic form: the scenario in which the default is WRITTEN OUT over the rest of time (explicit
+    intervals with value 0 resp. 1) describes the same assets.  If the set-up of the given scenario raises (`rec` None) while that of
+    the written-out one works, or the two problems differ, the unspecified steps did not get the default."""
+    s2, changed = c07gen.complete_defaults(scn)
+    if not changed:
+        return []
+    feats.append('default-written-out')
+    for ch in changed:
+        feats.append('partial:' + ch.split('.')[-1])
+
+    def bad(msg, what):
+        return [{'oracle': 'mapping_structure', 'detail': 'interval data covering part of the horizon only (%s): %s' % (', '.join(changed), msg),
+                 'facts': {'what': what, 'params': sorted(set(ch.split('.')[-1] for ch in changed))}}]
+    try:
+        rec2 = pf.setup_mono(s2)
+    except Exception as e:
+        feats.append('written-out-error:' + impl.err_class(e))
+        return [] if rec is None else bad('the portfolio sets up, but not (%s) when the documented default is written out as explicit intervals over the rest of time' % impl.err_class(e), 'default_written_out_raises')
+    if rec is None:
+        return bad('the set-up of the portfolio raises, although the same portfolio sets up when the documented default (0 resp. 1) is written out '
+                   'as explicit intervals over the rest of time - the default is not applied to the unspecified steps', 'default_not_applied')
+    a, b = rec['op'], rec2['op']
+    if nan_entries(a):
+        return []                     # (reported by the structural oracle)
+    for nm in ('c', 'l', 'u', 'b'):
+        x, y = np.asarray(getattr(a, nm), dtype=float), np.asarray(getattr(b, nm), dtype=float)
+        if x.shape != y.shape or not np.array_equal(x, y):
+            j = int(np.argmax(x != y)) if x.shape == y.shape else -1
+            return bad('%s of the problem differs from that of the same portfolio with the documented default written out as explicit intervals (%s)' % (
+                nm, 'lengths %d vs %d' % (len(x), len(y)) if j < 0 else 'entry %d: %s vs %s' % (j, x[j], y[j])), 'default_differs')
+    A1, A2 = sp.csr_matrix(a.A) if a.A is not None else None, sp.csr_matrix(b.A) if b.A is not None else None
+    if (A1 is None) != (A2 is None) or (A1 is not None and (A1.shape != A2.shape or a.cType != b.cType or (A1 != A2).nnz)):
+        rows = sorted(set(int(i) for i in (A1 != A2).nonzero()[0]))[:3] if A1 is not None and A2 is not None and A1.shape == A2.shape else None
+        return bad('the constraint matrix differs from that of the same portfolio with the documented default written out as explicit intervals (%s)' % (
+            'shapes / row types differ' if rows is None else 'rows %s, e.g. row %d (%s): %s vs %s' % (
+                rows, rows[0], a.cType[rows[0]], {j: v for j, v in zip(A1[rows[0]].indices.tolist(), A1[rows[0]].data.tolist()) if v != 0}, {j: v for j, v in zip(A2[rows[0]].indices.tolist(), A2[rows[0]].data.tolist()) if v != 0})), 'default_differs')
+    return []
 
 
 def run_case(scn, drv):
@@ -312,15 +435,26 @@ def run_case(scn, drv):
     feats = r['features']
     for a in scn['assets']:
         feats.append('asset:' + a['type'])
+    for x in scn.get('params', []):
+        feats.append('param-form:' + x.split(':')[-1])
     try:
         rec = pf.setup_mono(scn)
     except Exception as e:
         feats.append('setup-error:' + impl.err_class(e))
+        # the portfolio cannot be assembled: what the assets produce stand-alone is still subject to the property, and an
+        # undefined entry (NaN, refused by the portfolio's problem) where a documented default applies is a violation
+        r['violations'] += standalone_probe(scn, feats)
+        r['violations'] += default_written_out(scn, None, feats)
         return r
     r['disagreements'] += pf.hyp_wf(rec)
     feats.append('hypotheses-evaluated')
-    r['disagreements'] += pf.corr_assemble(rec, drv)
+    if nan_entries(rec['op']) or any(nan_entries(c) for c in rec['captured'].values()):
+        feats.append('nan-problem')        # (no rational number: nothing to hand to the model; the structural oracle reports it)
+    else:
+        r['disagreements'] += pf.corr_assemble(rec, drv)
     r['violations'] += structural(rec)
+    r['violations'] += standalone_probe(scn, feats, problems=False, captured=rec['captured'])
+    r['violations'] += default_written_out(scn, rec, feats)
     v, d = coarse_intervals(rec, drv, feats)
     r['violations'] += v
     r['disagreements'] += d
